@@ -534,6 +534,7 @@ pub fn run(case: &str, ctx: &mut Ctx) -> String {
         "dec" => run_dec(pol, idem, w[3], ctx),
         "run" => run_exec(Some(pol), idem, w[2], w[3], ctx),
         "runx" if pol == Pol::Fallthrough => run_exec(None, idem, w[2], w[3], ctx),
+        "spec" => run_spec(pol, idem, w[2], w[3], ctx),
         _ => "bad-case".to_owned(),
     }
 }
@@ -582,6 +583,130 @@ fn run_dec(pol: Pol, idem: bool, steps: &str, ctx: &mut Ctx) -> String {
         out.push(d.name());
     }
     list_or_dash(out, " ")
+}
+
+struct ResumeClock;
+impl Drop for ResumeClock {
+    fn drop(&mut self) {
+        tokio::time::resume();
+    }
+}
+
+/// `spec <policy>/<i|n> <cl0>/<plan>/<m> <outcome>@<ms>;…` — the same entry point with a
+/// `SimpleSpeculativeExecutionPolicy { max_retry_count: m, retry_interval: 100 ms }` on a paused clock; the k-th
+/// `run_request_once` call (over all fibers) takes `<ms>` virtual milliseconds and returns `<outcome>`.
+/// Several fibers interleave, so only interleaving-independent facts are printed and checked.
+fn run_spec(pol: Pol, idem: bool, w2: &str, outs: &str, ctx: &mut Ctx) -> String {
+    let p: Vec<&str> = w2.split('/').collect();
+    if p.len() != 3 {
+        return "bad-case".to_owned();
+    }
+    let (Some(cl0), Ok(m)) = (parse_cl(p[0]), p[2].parse::<usize>()) else { return "bad-case".to_owned() };
+    if m > 8 {
+        return "bad-case".to_owned();
+    }
+    let mut plan: Vec<usize> = Vec::new();
+    if p[1] != "-" {
+        for ch in p[1].chars() {
+            match ch {
+                '1' => plan.push(usize::MAX),
+                '0' => plan.push(0),
+                '2'..='9' => plan.push(ch as usize - '1' as usize),
+                _ => return "bad-case".to_owned(),
+            }
+        }
+    }
+    let mut outcomes: Vec<(Option<RequestAttemptError>, u64)> = Vec::new();
+    for o in ops(outs) {
+        let Some((o, ms)) = o.split_once('@') else { return "bad-case".to_owned() };
+        let Ok(ms) = ms.parse::<u64>() else { return "bad-case".to_owned() };
+        if ms > 100_000 {
+            return "bad-case".to_owned();
+        }
+        if o == "ok" {
+            outcomes.push((None, ms));
+        } else {
+            let Some(e) = parse_err(o) else { return "bad-case".to_owned() };
+            if err_name(&e, true) != o {
+                return "bad-case".to_owned();
+            }
+            outcomes.push((Some(e), ms));
+        }
+    }
+    let rec = Arc::new(Mutex::new(Recorded::default()));
+    let policy = RecordingPolicy { inner: pol.make(), rec: Arc::clone(&rec) };
+    let spec = scylla::policies::speculative_execution::SimpleSpeculativeExecutionPolicy {
+        max_retry_count: m,
+        retry_interval: std::time::Duration::from_millis(100),
+    };
+    let log: RefCell<Vec<(usize, Consistency)>> = RefCell::new(Vec::new());
+    let calls = Cell::new(0usize);
+    let result = ENV.with(|env| {
+        let params = hooks::ExecParams {
+            is_idempotent: idem,
+            consistency: cl0,
+            serial_consistency: None,
+            retry_policy: &policy,
+            load_balancing_policy: &env.lbp,
+            speculative_policy: Some(&spec),
+            request_timeout: None,
+        };
+        let run_once = |target: usize, cl: Consistency| {
+            log.borrow_mut().push((target, cl));
+            let k = calls.get();
+            calls.set(k + 1);
+            let (res, ms): (Result<(), RequestAttemptError>, u64) = match outcomes.get(k) {
+                Some((Some(e), ms)) => (Err(e.clone()), *ms),
+                Some((None, ms)) => (Ok(()), *ms),
+                None => (Ok(()), 7),
+            };
+            async move {
+                tokio::time::sleep(std::time::Duration::from_millis(ms)).await;
+                res
+            }
+        };
+        env.rt.block_on(async {
+            tokio::time::pause();
+            let _resume = ResumeClock;
+            hooks::run_request_calls(params, &env.conn, plan.clone(), run_once).await
+        })
+    });
+    let attempts = log.into_inner();
+    let n = attempts.len();
+    let sessions = rec.lock().unwrap().sessions;
+    let k = pol.same_node_retries();
+    // ---- oracle: "for any request, attempts <= plan length + the policy's fixed number of same-node retries"
+    //      (per fiber: each of the 1 + m fibers has its own retry session); non-idempotent requests never speculate
+    let fibers = if idem { 1 + m } else { 1 };
+    if n > plan.len() + fibers * k {
+        ctx.fail(format!("{} attempts > plan length {} + {} fiber(s) x {} same-node retries of the {} policy", n, plan.len(), fibers, k, pol.name()));
+    }
+    if sessions > fibers {
+        ctx.fail(format!("{} retry sessions for at most {} fiber(s)", sessions, fibers));
+    }
+    for t in 0..plan.len() {
+        let on_t = attempts.iter().filter(|(x, _)| *x == t).count();
+        if on_t > plan[t] || on_t > 1 + k {
+            ctx.fail(format!("{} attempts on target {} (pool gave {} connections; one fiber may send at most 1 + {} there)", on_t, t, plan[t], k));
+        }
+    }
+    if (pol == Pol::Fallthrough || (pol == Pol::Default && cl0.is_serial())) && n > fibers {
+        ctx.fail(format!("{} attempts by at most {} fiber(s) of a policy that never retries here", n, fibers));
+    }
+    if !idem {
+        for i in 0..n.saturating_sub(1) {
+            match outcomes.get(i) {
+                Some((Some(e), _)) if proves_not_applied(e) => {}
+                _ => ctx.fail(format!("non-idempotent request re-sent (attempt {}) after attempt {} which does not prove non-application", i + 1, i)),
+            }
+        }
+    }
+    let r = match &result {
+        Ok(hooks::ExecOutcome::Completed(_)) => "ok",
+        Ok(hooks::ExecOutcome::IgnoredWriteError(_)) => "ignored",
+        Err(_) => "err",
+    };
+    format!("N={} S={} R={}", n, sessions, r)
 }
 
 /// `pol = None`: the scripted test policy (`runx`), each failing outcome is written `<err>~<decision>`.
@@ -1082,6 +1207,35 @@ pub fn generate(rng: &mut Rng, tier: Tier, emit: &mut dyn FnMut(String)) {
                 emit(format!("runx fallthrough/i quorum/{} broken~{};broken~{};broken~same;broken~same;ok", plan, d0, d1));
             }
         }
+    }
+
+    // (d) speculative execution (several fibers, each with its own retry session, one shared plan iterator):
+    //     the combined bound plan + (1 + m) x same-node retries on the real code
+    for _ in 0..(if quick { 6000 } else { 60000 }) {
+        let pol = *rng.pick(&[Pol::Default, Pol::Default, Pol::Downgrading, Pol::Downgrading, Pol::Fallthrough]);
+        let idem = !rng.chance(1, 6);
+        let m = rng.range(0, 3) as usize;
+        let plan_len = rng.range(0, 5) as usize;
+        let plan: Vec<bool> = (0..plan_len).map(|_| !rng.chance(1, 6)).collect();
+        let ps = plan_str(&plan);
+        let ps = if rng.chance(1, 4) { flaky(rng, ps) } else { ps };
+        let len = plan_len + 3 * (m + 1) + 1;
+        let outs: Vec<String> = (0..len)
+            .map(|i| {
+                let ms = *rng.pick(&[7u64, 17, 47, 137, 157, 257, 377]);
+                let o = if i + 1 == len || rng.chance(1, 12) {
+                    "ok".to_string()
+                } else if rng.chance(3, 4) {
+                    rng.pick(&["db.readtimeout.2.2.0", "db.writetimeout.0.1.batchlog", "db.readtimeout.1.2.0", "db.unavailable.2.3",
+                        "db.writetimeout.3.4.unlogged", "db.bootstrapping", "broken", "db.overloaded"]).to_string()
+                } else {
+                    rng.pick(&ALPHABET[1..]).to_string()
+                };
+                format!("{}@{}", o, ms)
+            })
+            .collect();
+        let cl0 = if rng.chance(1, 10) { "serial" } else { *rng.pick(&["quorum", "eachquorum", "all", "one"]) };
+        emit(format!("spec {}/{} {}/{}/{} {}", pol.name(), if idem { "i" } else { "n" }, cl0, ps, m, outs.join(";")));
     }
 
     // (c) the loop under a scripted test policy: every decision arm with every consistency (the built-in policies
